@@ -96,6 +96,11 @@ def check_combination(ctx, case):
     if op == 'centered' and mean is not None:
         kw['mean'] = mean
     p = must(case, 'constructing %s(%s)' % (op, sorted(kw)), klass, **kw)
+    if case.get('sibling_op'):
+        # another combination preprocess (other operator, same kind of configuration) is created after the one under test and before it is used
+        kw2 = {k: v for k, v in kw.items() if k != 'mean'}
+        must(case, 'constructing a sibling %s(%s)' % (case['sibling_op'], sorted(kw2)),
+             {'product': ho.Product, 'difference': ho.Difference, 'absdiff': ho.AbsoluteDifference, 'centered': ho.CenteredProduct}[case['sibling_op']], **kw2)
     if traces.shape[0] > 1:
         _prime(case, op, p, traces)
     out = must(case, '%s on %s%s' % (op, traces.dtype, traces.shape), p, gen.L(case, traces))
@@ -219,7 +224,7 @@ def check_first_order(ctx, case):
         eps_b = max(eps, float(np.finfo(odt).eps))
         if op in ('centeron', 'standardizeon') and case.get('mean') is not None:
             # the subtraction is carried out in the promoted type of its operands (e.g. float32 traces - float32 mean), even if a float64 std widens the result later
-            sub_dt = np.result_type(traces.dtype if op == 'standardizeon' else odt, case['mean'].dtype)
+            sub_dt = np.result_type(traces.dtype if op == 'standardizeon' else odt, np.asarray(case['mean']).dtype if not isinstance(case['mean'], int) else odt)
             if sub_dt.kind == 'f':
                 eps = max(eps, float(np.finfo(sub_dt).eps))
                 eps_b = max(eps_b, eps)
@@ -264,7 +269,7 @@ def check_first_order(ctx, case):
     if not np.array_equal(traces, t0):
         raise Violation('%s modified its input' % op, case)
     ext = any(_is_extreme(v, traces.dtype) for v in traces.reshape(-1))
-    ctx.case(case, ext or n > 1, ['first:' + op, 'dtype:' + str(traces.dtype), 'extreme' if ext else 'no_extreme'])
+    ctx.case(case, ext or n > 1, ['first:' + op, 'dtype:' + str(traces.dtype), 'extreme' if ext else 'no_extreme'] + (['integer_typed_mean'] if op == 'centeron' and case.get('mean') is not None and (isinstance(case['mean'], int) or np.asarray(case['mean']).dtype.kind in 'iu') else []))
 
 
 # ------------------------------------------------------------------------------------------------
@@ -458,6 +463,10 @@ def comb_cases(draw):
     elif which == 'two':
         cfg['frame_1'] = draw(frames(L, allow_none=False))
         cfg['frame_2'] = draw(frames(L, allow_none=False))
+        if draw(st.integers(0, 2)) == 0:
+            # frame_2 given explicitly and naming the same samples as frame_1 (the documented result is still the full frame_1 x frame_2 product)
+            f1 = cfg['frame_1']
+            cfg['frame_2'] = (list(_frame_positions(f1, L)) if draw(st.booleans()) else (list(f1) if isinstance(f1, list) else f1))
     elif which == 'same':
         k = draw(st.integers(1, min(L, 5)))
         cfg['frame_1'] = draw(st.lists(st.integers(0, L - 1), min_size=k, max_size=k))
@@ -476,7 +485,8 @@ def comb_cases(draw):
             cfg['mean'] = draw(hnp.arrays(draw(st.sampled_from(['float32', 'float64'])), (L,), elements=st.integers(-1024, 1024).map(lambda k: k / 4.0)))
         else:
             cfg['mean'] = None
-    return {'kind': 'comb', 'op': op, 'cfg': cfg, 'traces': traces, 'precision': prec}
+    return {'kind': 'comb', 'op': op, 'cfg': cfg, 'traces': traces, 'precision': prec,
+            'sibling_op': draw(st.sampled_from([None, None, 'product', 'difference', 'absdiff', 'centered']))}
 
 
 @st.composite
@@ -498,6 +508,16 @@ def first_cases(draw):
     if op in ('centeron', 'standardizeon'):
         mdt = draw(st.sampled_from(['float32', 'float64']))
         case['mean'] = draw(st.one_of(st.none(), hnp.arrays(mdt, (L,), elements=st.integers(-1024, 1024).map(lambda k: k / 4.0))))
+        if op == 'centeron' and draw(st.integers(0, 2)) == 0:
+            # a mean given in an integer type: a raw reference trace of the same (or a narrower) integer type as the traces, an int64 array,
+            # or a plain Python integer for every sample
+            mk = draw(st.sampled_from(['same', 'same', 'uint8', 'int8', 'int64', 'pyint']))
+            if mk == 'pyint':
+                case['mean'] = draw(st.sampled_from([128, 100, 1, 255, 1000]))
+            else:
+                idt = str(traces.dtype) if (mk == 'same' and traces.dtype.kind in 'iu') else ('int64' if mk == 'same' else mk)
+                info = np.iinfo(idt)
+                case['mean'] = draw(hnp.arrays(idt, (L,), elements=st.integers(max(int(info.min), -1024), min(int(info.max), 1024))))
     if op == 'standardizeon':
         case['std'] = draw(st.one_of(st.none(), hnp.arrays('float64', (L,), elements=st.sampled_from([0.5, 1.0, 2.0, 4.0, 3.0, 0.25]))))
     return case
